@@ -552,6 +552,10 @@ func stillWorks(v *gossip.VNode, conn *captureConn) string {
 	if conn.n < before+2 {
 		return fmt.Sprintf("valid digest request was answered with %d datagrams, expected a delta and a digest", conn.n-before)
 	}
+	// the health probe is not a timing test: the victim's 300 ms stream timeout
+	// (kept short for the stalled-stream cases) would cut a large join response on
+	// a loaded machine, so the probe runs with a generous one
+	defer v.SetStreamTimeout(v.SetStreamTimeout(2 * time.Minute))
 	client, server := net.Pipe()
 	errc := make(chan error, 1)
 	go func() { errc <- v.HandleStream(server) }()
@@ -559,7 +563,7 @@ func stillWorks(v *gossip.VNode, conn *captureConn) string {
 		[]wireDeltaEntry{{ID: "probe", Addr: "127.0.0.1:7010", Entries: []gossip.Entry{{Key: "k", Value: "v", Version: 1}}}},
 		[]wireDigestEntry{{ID: "probe", Addr: "127.0.0.1:7010", Version: 1}})...)
 	go func() { _, _ = client.Write(req) }()
-	_ = client.SetReadDeadline(time.Now().Add(5 * time.Second))
+	_ = client.SetReadDeadline(time.Now().Add(2 * time.Minute))
 	var h codec.MsgpackHandle
 	dec := codec.NewDecoder(client, &h)
 	var rh hdr
